@@ -49,16 +49,20 @@ def run(ctx):
 def rule_ctor(facts, rep):
     b = facts.body("anstream", A + "new")
     rep.fn(b["path"])
-    m = ac.single_expr(b["hir"])
-    got = {}
-    for a in m["arms"]:
-        for alt in hir.pat_alternatives(a["pat"]):
-            v = hir.last_seg(hir.pat_path(alt))
-            c = ac.single_expr(a["body"])
-            got[v] = (hir.callee(c).split("::")[-1], hir.local_name(c["args"][0]) if c.get("k") == "call" and c["args"] else None)
+    # by abstract evaluation, one case per ColorChoice: the constructor reached and what it is given
+    import abseval
+
+    def tagged(*names):
+        return {A + n_: (lambda a_, n_=n_: ("made-by", n_) + tuple(a_)) for n_ in names}
     want = {"Auto": ("auto", "raw"), "AlwaysAnsi": ("always_ansi", "raw"), "Always": ("always", "raw"), "Never": ("never", "raw")}
     for k, v in want.items():
-        rep.check(got.get(k) == v and hir.is_local(m["scrut"], "choice"), "ctor", b["path"], f"{k}→{v[0]}", f"{got.get(k)}", loc(b))
+        try:
+            ev = abseval.Evaluator(facts, "anstream", tagged("auto", "always_ansi", "always", "never", "always_ansi_", "wincon"))
+            r = ev.call_fn("anstream", b["path"], [("sym", "raw"), ("enum", "colorchoice::ColorChoice::" + k)])
+            ok, why = r == ("made-by", v[0], ("sym", "raw")), str(r)[:100]
+        except Unrecognised as ex:
+            ok, why = False, f"not evaluable: {ex}"
+        rep.check(ok, "ctor", b["path"], f"{k}→{v[0]}", why, loc(b))
     n = facts.body("anstream", A + "never")
     rep.fn(n["path"])
     st = hir.stmts_of(n["hir"])
@@ -80,11 +84,12 @@ def rule_ctor(facts, rep):
     rep.check(hir.is_call(tail, A + "always_ansi_") and hir.is_local(tail["args"][0], "raw"), "ctor", aa["path"], "ends-in-always_ansi_(raw)", "", loc(aa))
     al = facts.body("anstream", A + "always")
     rep.fn(al["path"])
-    e = ac.single_expr(al["hir"])
-    ok = False
-    if e.get("k") == "if" and hir.lit_val(e["c"]) is False and "e" in e:
-        t = ac.single_expr(e["e"])
-        ok = hir.is_call(t, A + "always_ansi") and hir.is_local(t["args"][0], "raw")
+    try:
+        ev = abseval.Evaluator(facts, "anstream", tagged("always_ansi", "always_ansi_", "wincon"))
+        r = ev.call_fn("anstream", al["path"], [("sym", "raw")])
+        ok = r == ("made-by", "always_ansi", ("sym", "raw"))
+    except Unrecognised:
+        ok = False
     rep.check(ok, "ctor", al["path"], "non-windows→always_ansi(raw)", "cfg!(windows) is false on this target", loc(al))
     w = facts.body("anstream", A + "wincon")
     e = ac.single_expr(w["hir"])
